@@ -45,6 +45,12 @@ Exact(e) == ExactScenario(cfg) /\ ExactPod(e)
 OpenChecks(e) ==
     IF ~Exact(e) THEN <<>>
     ELSE Chk(G_C19_HighestWeightFeasible(cfg, e, Ev.pool, st.left), "G_C19_HighestWeightFeasible", SigHighest(cfg, e, Ev.pool, st.left))
+         \* observation: a heavier usable pool could host the pod the KUBERNETES way (any required term, preferences and PreferNoSchedule
+         \* not binding) - Karpenter's documented reading (preferences first treated as required) sent it to a lighter pool
+         \o (IF KnownPool(cfg, Ev.pool)
+             THEN Chk(~\E q \in Range(cfg.pools) : q.weight > PoolByName(cfg, Ev.pool).weight /\ FeasibleRelaxed(cfg, e, q, st.left[q.name]),
+                      "Obs_C19_SoftConstraintBeatsWeight", "heavier-pool-feasible-the-kubernetes-way")
+             ELSE <<>>)
          \o (IF KnownPool(cfg, Ev.pool)
              THEN Chk(FeasibleFresh(cfg, e, PoolByName(cfg, Ev.pool), st.left[Ev.pool]), "Fid_C19_Chosen",
                       IF WithinLimits(PoolByName(cfg, Ev.pool), [cpu |-> 0, mem |-> 0], st.left[Ev.pool]) THEN "chosen-pool-infeasible-for-spec"
@@ -78,7 +84,7 @@ TRequeue ==
                              ELSE Chk(~\E q \in Range(cfg.pools) : FeasibleLadder(cfg, e, q, st.left[q.name]), "Fid_C19_Unplaced", "spec-finds-a-feasible-pool")
                                   \o Chk((\E q \in Range(cfg.pools) : FeasibleRelaxed(cfg, e, q, st.left[q.name]))
                                            => \E q \in Range(cfg.pools) : FeasibleLadder(cfg, e, q, st.left[q.name]),
-                                         "Obs_C19_Unplaced", "or-term-dropped-before-prefer-no-schedule-toleration"))
+                                         "Obs_C19_Unplaced", "relaxation-ladder-skips-the-feasible-combination"))
     /\ UNCHANGED <<cfg, st, ntr, cases>>
 
 \* ---- Sched fail: the pod ends the pass without a home (every pool was tried in the final state: the queue retries a pod
